@@ -36,6 +36,15 @@ def handleExefs (cmd : String) (args : List SExp) : String :=
         | .ok e => "ok " ++ renderEntry e
         | .error e => "e:" ++ e.name
     | _, _, _ => "bad-args"
+  | "sdtitle-select", [.list present, .list recs] =>
+    -- present: existing file names; recs: the `<id>.app` name of every TMD record, in order -> indices of the listed records
+    match present.mapM SExp.bytes?, recs.mapM SExp.bytes? with
+    | some pres, some names =>
+      let records : List Tmd.ChunkRecord := (List.range names.length).map fun i =>
+        { id := [], cindex := i, type := Tmd.TypeFlags.ofInt 0, size := 0, hash := [] }
+      let sel := SdTitle.select (fun n => pres.contains n) (fun r => names.getD r.cindex []) records
+      "ok " ++ " ".intercalate (sel.map fun r => toString r.cindex)
+    | _, _ => "bad-args"
   | _, _ => "bad-args"
 
 end Pyctr
@@ -96,6 +105,15 @@ def handleTmd (cmd : String) (args : List SExp) : String :=
       | some o => toHexW o
       | none => "e:struct.error"
     | none => "bad-args"
+  | "sdtitle-select", [.list present, .list recs] =>
+    -- present: existing file names; recs: the `<id>.app` name of every TMD record, in order -> indices of the listed records
+    match present.mapM SExp.bytes?, recs.mapM SExp.bytes? with
+    | some pres, some names =>
+      let records : List Tmd.ChunkRecord := (List.range names.length).map fun i =>
+        { id := [], cindex := i, type := Tmd.TypeFlags.ofInt 0, size := 0, hash := [] }
+      let sel := SdTitle.select (fun n => pres.contains n) (fun r => names.getD r.cindex []) records
+      "ok " ++ " ".intercalate (sel.map fun r => toString r.cindex)
+    | _, _ => "bad-args"
   | _, _ => "bad-args"
 
 end Pyctr
@@ -162,6 +180,15 @@ def handleRomfs (cmd : String) (args : List SExp) : String :=
         let e := romfsEnv (c == 1) file start p
         toString (repDir e (slice e.dm 0 0x18) tree && decide (tree.numDirs ≤ e.maxDirs) && decide (tree.numFiles ≤ e.maxFiles))
     | _, _, _, _ => "bad-args"
+  | "sdtitle-select", [.list present, .list recs] =>
+    -- present: existing file names; recs: the `<id>.app` name of every TMD record, in order -> indices of the listed records
+    match present.mapM SExp.bytes?, recs.mapM SExp.bytes? with
+    | some pres, some names =>
+      let records : List Tmd.ChunkRecord := (List.range names.length).map fun i =>
+        { id := [], cindex := i, type := Tmd.TypeFlags.ofInt 0, size := 0, hash := [] }
+      let sel := SdTitle.select (fun n => pres.contains n) (fun r => names.getD r.cindex []) records
+      "ok " ++ " ".intercalate (sel.map fun r => toString r.cindex)
+    | _, _ => "bad-args"
   | _, _ => "bad-args"
 
 end Pyctr
@@ -171,8 +198,13 @@ namespace Pyctr
 def handleSd (cmd : String) (args : List SExp) : String :=
   match cmd, args with
   | "sd-iv", [p] =>
-    match strOfSExp p with
-    | some path => toString (Sd.sdIv lowerAsciiUnits Prim.sha256 path)
+    -- the path as UTF-32LE bytes: one code point per four bytes (Python's `str` is a sequence of code points)
+    match p.bytes? with
+    | some b =>
+      if b.length % 4 != 0 then "bad-args" else
+      let path : Sd.Str := (List.range (b.length / 4)).map fun i => readLE (slice b (4 * i) 4)
+      let lowerAsciiCp (s : Sd.Str) : Sd.Str := s.map fun u => if 0x41 ≤ u ∧ u ≤ 0x5A then u + 0x20 else u
+      toString (Sd.sdIv lowerAsciiCp Prim.sha256 path)
     | none => "bad-args"
   | "sd-key", [d, dv, bl] =>
     match d.bytes?, dv.nat?, bl.bytes? with
@@ -184,6 +216,15 @@ def handleSd (cmd : String) (args : List SExp) : String :=
           (match e.normal 0x3A with | some k => toHexW k | none => "none") ++ " " ++ toHexW id0
       | .error e => "e:" ++ e.name
     | _, _, _ => "bad-args"
+  | "sdtitle-select", [.list present, .list recs] =>
+    -- present: existing file names; recs: the `<id>.app` name of every TMD record, in order -> indices of the listed records
+    match present.mapM SExp.bytes?, recs.mapM SExp.bytes? with
+    | some pres, some names =>
+      let records : List Tmd.ChunkRecord := (List.range names.length).map fun i =>
+        { id := [], cindex := i, type := Tmd.TypeFlags.ofInt 0, size := 0, hash := [] }
+      let sel := SdTitle.select (fun n => pres.contains n) (fun r => names.getD r.cindex []) records
+      "ok " ++ " ".intercalate (sel.map fun r => toString r.cindex)
+    | _, _ => "bad-args"
   | _, _ => "bad-args"
 
 end Pyctr
@@ -208,6 +249,15 @@ def handleCci (cmd : String) (args : List SExp) : String :=
     | some pres, some rs =>
       let chosen := rs.map fun (lo, up) => Cdn.chooseFile (fun n => pres.contains n) lo up
       " ".intercalate (chosen.map fun c => match c with | some n => toHexW n | none => "skip")
+    | _, _ => "bad-args"
+  | "sdtitle-select", [.list present, .list recs] =>
+    -- present: existing file names; recs: the `<id>.app` name of every TMD record, in order -> indices of the listed records
+    match present.mapM SExp.bytes?, recs.mapM SExp.bytes? with
+    | some pres, some names =>
+      let records : List Tmd.ChunkRecord := (List.range names.length).map fun i =>
+        { id := [], cindex := i, type := Tmd.TypeFlags.ofInt 0, size := 0, hash := [] }
+      let sel := SdTitle.select (fun n => pres.contains n) (fun r => names.getD r.cindex []) records
+      "ok " ++ " ".intercalate (sel.map fun r => toString r.cindex)
     | _, _ => "bad-args"
   | _, _ => "bad-args"
 
